@@ -92,6 +92,17 @@ def run(tier, replay=None):
         cases = []
     else:
         cases = histories(ctx)
+        # regression inputs: `... opendata X / tick far / seek t / ctl`; the reference is the same load followed by `tick t / ctl`
+        import glob, os
+        for f in sorted(glob.glob(os.path.join(common.VERIF, "corpus", PROP, "*.ops"))):
+            ops = [l for l in open(f).read().split("\n") if l.strip() and not l.startswith("#")]
+            k = max(i for i, o in enumerate(ops) if o.startswith("seek "))
+            j = max(i for i, o in enumerate(ops[:k]) if o.startswith("opendata "))
+            t = sq.dy(ops[k].split()[1]) if ":" in ops[k].split()[1] else Fraction(float(ops[k].split()[1]))
+            ts = sq.dystr(Fraction(float(t)))
+            B = ops[:k] + ["seek " + ts, "ctl", "tickall 200000 " + GRAN]
+            A = ops[:j + 1] + ["tick %s %s" % (ts, GRAN), "ctl", "tickall 200000 " + GRAN]
+            cases.insert(0, {"song": None, "t": Fraction(float(t)), "A": A, "B": B, "C": B})
         flat = []
         for c in cases:
             for k in ("A", "B", "C", "TA", "TB", "D", "E", "lin"):
